@@ -142,6 +142,11 @@ impl Precedence {
     }
 }
 
+/// Escapes the characters that cannot appear literally between single quotes.
+pub(crate) fn escape_quote(string: &str) -> String {
+    string.replace('\'', "\\'").replace('\n', "\\n")
+}
+
 /// True if the printed form of the expression begins with a unary `+` or `-`.
 pub(crate) fn starts_with_sign(expr: &Expr) -> bool {
     match *expr {
@@ -159,7 +164,7 @@ impl fmt::Display for Expr {
         fn recurse(expr: &Expr, fmt: &mut fmt::Formatter<'_>, prec: Precedence) -> fmt::Result {
             match *expr {
                 Expr::Unit { ref name } => write!(fmt, "{}", name),
-                Expr::Quote { ref string } => write!(fmt, "'{}'", string),
+                Expr::Quote { ref string } => write!(fmt, "'{}'", escape_quote(string)),
                 Expr::Const { ref value } => {
                     let (_exact, val) = value.to_string(10, Digits::Default);
                     write!(fmt, "{}", val)
